@@ -18,6 +18,8 @@ CHECKS = {  # commit subject prefix -> checks expected to fail when the fix is r
     'fix: an event enqueued on a submachine': ['C13'],
     'fix: puml count_inits': ['C14'],
     'fix: arrival order of deferred events': ['C05'],
+    'fix: back11 recognises a queued or deferred end-interrupt': ['C11'],
+    'fix: backmp11 single-step event pool': ['C10'],
 }
 def main():
     log = subprocess.run(['git', '-C', '/repo', 'log', '--format=%h %s'], capture_output=True, text=True).stdout.strip().split('\n')
